@@ -1,5 +1,5 @@
 """C01 — reads return exactly what the accepted writes imply (structural clauses)."""
-from ..ir import callee, short, walk, ctor_name, pat_variants, AnchorMissing
+from ..ir import callee, short, walk, ctor_name, pat_variants, guards, AnchorMissing
 from ..trace import Tracer, ok_exits, err_exits, base
 from ..prov import Bindings
 from .common import *
@@ -312,4 +312,39 @@ def rule_f(prog, rep):
             rep.violation('C01.f', f'Store::{m}', f.loc, 'does not read the value of the node at `path`', key=f'C01.f/Store::{m}')
 
 
-RULES = [('C01.f', rule_f), ('C01.a', rule_a), ('C01.b', rule_b), ('C01.c', rule_c), ('C01.e', rule_e)]
+def rule_g(prog, rep):
+    rep.rule('C01.g', 'T3+T7', 'import stores what it was given: in Store::nmerge every imported entry (the Some edge of '
+             'other.take_value()) is written with node.set_value(<that entry>) unconditionally - value, kind (plain / CAS) and '
+             'version; merge recounts the entries afterwards')
+    crate = prog.crate(WB)
+    f = crate.fn(f'{STORE}::nmerge')
+    b = Bindings(crate, f)
+    sets = [(nd, anc) for nd, anc in crate.walk_fn(f) if nd.get('k') == 'call' and callee(nd).endswith('Node::<K, V>::set_value')]
+    problems = []
+    if len(sets) != 1:
+        problems.append(f'{len(sets)} set_value sites')
+    else:
+        nd, anc = sets[0]
+        g = [it for it in guards(anc + (nd,)) if it[0] in ('if', 'match', 'loop')]
+        cond_ok = len(g) == 1 and g[0][0] == 'if' and g[0][2] is True and g[0][1].get('k') == 'letcond' and \
+            g[0][1]['init'].get('k') == 'call' and short(callee(g[0][1]['init'])) == 'take_value' and \
+            b.origins(g[0][1]['init']['args'][0]) == {'param(other)'}
+        if not cond_ok:
+            problems.append('the entry is not stored on every path of the Some(entry) edge of other.take_value()')
+        vo = b.origins(nd['args'][1])
+        if not vo or not all('take_value' in x and x.endswith('#Some.0') for x in vo):
+            problems.append(f'the stored entry is not the imported one ({sorted(vo)})')
+        if b.origins(nd['args'][0]) != {'param(node)'}:
+            problems.append('not stored into the node being merged')
+    m = crate.fn(f'{STORE}::merge')
+    mb = Bindings(crate, m)
+    asg = [nd for nd, a in crate.walk_fn(m) if nd.get('k') == 'assign' and nd['l'].get('k') == 'field' and nd['l']['name'] == 'len']
+    if len(asg) != 1 or not any('ncount_values' in x for x in mb.origins(asg[0]['r'])):
+        problems.append('merge does not recount the entries')
+    if problems:
+        rep.violation('C01.g', 'Store::nmerge', f.loc, '; '.join(problems), key='C01.g/nmerge/' + '|'.join(p_.split(' (')[0] for p_ in problems))
+    else:
+        rep.ok('C01.g', 'Store::nmerge', loc(f, sets[0][0]), 'if let Some(entry) = other.take_value() { node.set_value(entry) } - unconditional; merge recounts')
+
+
+RULES = [('C01.g', rule_g), ('C01.f', rule_f), ('C01.a', rule_a), ('C01.b', rule_b), ('C01.c', rule_c), ('C01.e', rule_e)]
